@@ -208,6 +208,23 @@ theorem innerProduct_some (e : Nat) (he : r = some e) :
   rw [overlapDim_image_iff iA iB, ek, ← n2]
   exact ⟨_, overlap_zero_canon s2 k px pz hx hz g2 hpos⟩
 
+/-- … and `e` is the number of rows with an x-bit of the canonical form the code inspects; the x-free rows are positive -/
+theorem innerProduct_some_rows (e : Nat) (he : r = some e) :
+    ∃ s2, (STab.ofTab (b.runCircuit circ)).canonicalForm = .ok s2 ∧
+      (∀ i, i < a.n → (((List.range a.n).any fun j => (s2.row i).x j) = true ↔ i < e)) ∧
+      (∀ i, e ≤ i → i < a.n → (s2.row i).r = false) := by
+  obtain ⟨s2, k, px, pz, hc, n2, _, g2, hx, hz, iA, iB, hr⟩ := innerProduct_analysis a b s1 circ r ga gb hs hzero h
+  have spec := ipFold_spec k (fun i => (s2.row i).r) s2.n
+  rw [← hr] at spec
+  obtain ⟨ek, hpos⟩ := spec.1 e he
+  have hkn : k ≤ s2.n := hx.pr_le
+  have ek : e = k := by omega
+  refine ⟨s2, hc, fun i hi => ?_, fun i h1 h2 => hpos i (by omega) (by omega)⟩
+  have := canon_hasX s2 k px hx i (by omega)
+  rw [n2] at this
+  rw [this, ek]
+  simp
+
 /-- the result is `1` exactly when the two signed groups coincide -/
 theorem innerProduct_one_iff : r = some 0 ↔ SpanEq (STab.ofTab a) (STab.ofTab b) := by
   obtain ⟨s2, k, px, pz, _, n2, _, g2, hx, hz, iA, iB, hr⟩ := innerProduct_analysis a b s1 circ r ga gb hs hzero h
